@@ -177,6 +177,10 @@ func (r *DefaultReader) ReadLen() (n int) {
 
 func (r *DefaultReader) ReadBinary(bs []byte) (m int, err error) {
 	m = r.acquire(len(bs))
+	if m > len(bs) {
+		// acquire reports everything buffered when the source failed
+		m = len(bs)
+	}
 	copy(bs, r.buf[r.ri:r.ri+m])
 	r.ri += m
 	if len(bs) > m {
